@@ -4,7 +4,7 @@ OBLIGATIONS = [
      bound='all int32 min<=max with max-min<2^31-1, all orig in [min,max], all 32-bit pred; 1 component',
      covers='PredictionSchemeWrapTransformBase::InitCorrectionBounds/ClampPredictedValue, EncodingTransform::ComputeCorrection, DecodingTransform::ComputeOriginalValue'),
 ]
-for q, tier in [(2, 'quick'), (3, 'quick'), (8, 'quick'), (11, 'quick')] + [(x, 'thorough') for x in (4, 5, 6, 7, 9, 10, 12, 13, 14, 15, 16, 17, 18, 19, 20, 21, 22, 23, 24, 25, 26, 27, 28, 29, 30)]:
+for q, tier in [(2, 'quick'), (3, 'quick'), (8, 'quick'), (11, 'quick'), (16, 'quick'), (30, 'quick')] + [(x, 'thorough') for x in (4, 5, 6, 7, 9, 10, 12, 13, 14, 15, 17, 18, 19, 20, 21, 22, 23, 24, 25, 26, 27, 28, 29)]:
     OBLIGATIONS.append(Ob('C16.oct_canon_q%d' % q, 'C16/oct.cc', 'h_oct_canon', tier=tier, unwind=3, defines={'QC': q},
         bound='q=%d: all canonical (orig,pred) in [0,2^q-2]^4' % q,
         covers='PredictionSchemeNormalOctahedronCanonicalized{Encoding,Decoding}Transform::ComputeCorrection/ComputeOriginalValue, GetRotationCount/RotatePoint/IsInBottomLeft, OctahedronToolBox::IsInDiamond/InvertDiamond/ModMax/MakePositive'))
